@@ -1003,8 +1003,8 @@ func genManyOpts(g *G) {
 		return evmOpts{Kind: "unpacked", Base: one, Window: uint64(win), FeedID: feed, ABI: [][]c12Enc1{{{"int192", nil}}}}
 	}
 	n := 4200
-	if !g.Thorough() {
-		n = 4200
+	if g.Lite() {
+		n = 300
 	}
 	for i := 0; i < n; i++ {
 		c12EmitEncode(g, mk(uint32(100+i)), 0, evmReportJ(7, 1e9, 5e9, false, []any{price, price, c12DecSV(c12Dv{c12Bi(int64(i)), 0})}), false, "many-distinct-opts")
